@@ -399,6 +399,41 @@ def catch_epochs(tier='quick'):
                     if sorted(out, key=lambda v: -1 if v is None else v) != sorted(exp, key=lambda v: -1 if v is None else v):
                         _fail(fails, 'n=%d failing=%r reshuffle.catch epoch %d' % (n, bad, epoch), 'catch-over-reshuffle', out, exp)
                         return cases, fails
+    # catch() over stages that look examples up by key / index themselves (concatenate, intersperse, slice by keys, key_zip,
+    # cache, sort, items): the exception types that user code raises most (KeyError, IndexError, LookupError subclasses,
+    # ValueError) are not to be confused with the stage's own lookup failures -- values and items agree  (batch is left out:
+    # it uses IndexError as its own end-of-data signal, listed finding F18)
+    n = 6
+    keys = ['k%d' % i for i in range(n)]
+    for exc in (KeyError, IndexError, ValueError, A):
+        for bad in ((), (0,), (2,), (n - 1,), (1, 4)):
+            def f(x, bad=bad, exc=exc):
+                if x in bad:
+                    raise exc(x)
+                return x
+            a = lazy_dataset.new(dict(zip(keys[:3], range(3)))).map(f)
+            b = lazy_dataset.new(dict(zip(keys[3:], range(3, n)))).map(f)
+            whole = lazy_dataset.new(dict(zip(keys, range(n)))).map(f)
+            stages = {'concatenate': (a.concatenate(b), list(range(n))), 'intersperse': (a.intersperse(b), [0, 3, 1, 4, 2, 5]),
+                      'slice by keys': (whole[keys[::-1]], list(range(n))[::-1]), 'key_zip': (whole.key_zip(whole), [(i, i) for i in range(n)]),
+                      'sort by keys': (whole.sort(reverse=True), list(range(n))[::-1]), 'cache': (None, list(range(n)))}
+            for name, (ds0, order) in stages.items():
+                cases += 1
+                if name == 'cache':
+                    ds0 = whole.cache()
+                ds = ds0.catch(exc)
+                want = [v for v in order if (v[0] if isinstance(v, tuple) else v) not in bad]
+                try:
+                    vals = list(ds)
+                    its = [v for _, v in ds.items()]
+                    out = (vals, its)
+                except BaseException as e:      # noqa
+                    out = '%s: %s' % (type(e).__name__, str(e)[:100])
+                if out != (want, want):
+                    _fail(fails, 'map(f raising %s at %r) below %s, then catch(%s): values and items' % (exc.__name__, bad, name, exc.__name__),
+                          'catch-over-looking-up-stages', out, (want, want))
+                    if len(fails) >= 3:
+                        return cases, fails
     return cases, fails
 
 
